@@ -1260,11 +1260,12 @@ impl<const MIN_ALIGN: usize> Bump<MIN_ALIGN> {
                         // only allocation in this chunk.
                         //
                         // Because this is the only allocation in this chunk,
-                        // we can reset the chunk's bump finger to the start of
-                        // the chunk.
+                        // we can reset the chunk's bump finger to where it
+                        // starts in a fresh chunk: at the footer (we bump
+                        // downwards, so `data` would mean "chunk is full").
                         #[cfg(bumpalo_verif)]
                         crate::__verif::footer_store(current_footer_p.as_ptr() as usize, crate::__verif::SITE_REWIND_NEW);
-                        current_ptr.set(current_footer_p.as_ref().data);
+                        current_ptr.set(current_footer_p.cast());
                     }
                 }
                 //SAFETY:
@@ -1372,11 +1373,12 @@ impl<const MIN_ALIGN: usize> Bump<MIN_ALIGN> {
                         // only allocation in this chunk.
                         //
                         // Because this is the only allocation in this chunk,
-                        // we can reset the chunk's bump finger to the start of
-                        // the chunk.
+                        // we can reset the chunk's bump finger to where it
+                        // starts in a fresh chunk: at the footer (we bump
+                        // downwards, so `data` would mean "chunk is full").
                         #[cfg(bumpalo_verif)]
                         crate::__verif::footer_store(current_footer_p.as_ptr() as usize, crate::__verif::SITE_REWIND_NEW);
-                        current_ptr.set(current_footer_p.as_ref().data);
+                        current_ptr.set(current_footer_p.cast());
                     }
                 }
                 //SAFETY:
